@@ -5,7 +5,8 @@
 //!   p:<t>:<id>:<n|l>  printing thread t prints message id with (n) / without (l) trailing line break;
 //!                     asynchronous: the command is queued to the thread
 //!   r                 the editing thread is told to call `readline` (asynchronous)
-//!   k:<key>           a key is typed (p<cp> plain a–z | e Enter | s `M-1` digit argument | x `C-g`), no waiting
+//!   k:<key>           a key is typed (p<cp> plain a–z | e Enter | s `M-1` digit argument | r `C-r` incremental
+//!                     search (the history holds one entry) | x `C-g`), no waiting
 //!   q                 wait until the reader sleeps in select / read(0) with everything typed consumed,
 //!                     or until no read is running
 //!   s                 wait until every issued `print` call has returned
@@ -41,6 +42,7 @@ fn parse_key(k: &str) -> Option<Vec<u8>> {
     match k {
         "e" => Some(vec![0x0d]),
         "s" => Some(vec![0x1b, b'1']),
+        "r" => Some(vec![0x12]),
         "x" => Some(vec![0x07]),
         _ => {
             let cp: u32 = k.strip_prefix('p')?.parse().ok()?;
@@ -254,6 +256,8 @@ fn run(req: &Req, raw: bool) -> Option<String> {
             Err(_) => return,
         };
         ed.bind_sequence(Event::Any, EventHandler::Conditional(Box::new(Counter { n: disp2 })));
+        // one history entry, so that `C-r` enters the incremental-search sub-loop
+        let _ = ed.add_history_entry("hello world");
         let printers: Vec<_> = (0..n).filter_map(|_| ed.create_external_printer().ok()).collect();
         let _ = setup_tx.send((gettid(), printers));
         while let Ok(EdCmd::Read) = cmd_rx.recv() {
@@ -420,6 +424,34 @@ fn render(out: &[u8], marks: &[(usize, String)], texts: &[(usize, usize, bool)],
     let mut i = 0;
     let mut await_prompt = false;
     let first_draw: Vec<u8> = [b"\r\x1b[K", PROMPT.as_bytes()].concat();
+    // stream intervals during which the read is known to wait inside a sub-loop (digit argument,
+    // incremental search): from the first quiescence seen after the key that starts the loop to the
+    // next key.  A message shown there (the unchanged code shows none: D21) must be followed by a
+    // repaint under the sub-loop's own prompt.
+    let mut windows: Vec<(usize, usize)> = vec![];
+    {
+        let mut armed = false;
+        let mut start: Option<usize> = None;
+        for (pos, m) in marks {
+            if m == "K:s" || m == "K:r" {
+                if let Some(s0) = start.take() {
+                    windows.push((s0, *pos));
+                }
+                armed = true;
+            } else if m.starts_with("K:") {
+                if let Some(s0) = start.take() {
+                    windows.push((s0, *pos));
+                }
+                armed = false;
+            } else if armed && start.is_none() && (m == "Q:r" || m == "Q:b") {
+                start = Some(*pos);
+            }
+        }
+        if let Some(s0) = start {
+            windows.push((s0, usize::MAX));
+        }
+    }
+    let in_sub = |i: usize| windows.iter().any(|(a, b)| *a <= i && i < *b);
     while i < out.len() {
         if starts_with_at(out, i, b"\x1b[?2004h") {
             evs.push((i, "+".to_string()));
@@ -439,7 +471,14 @@ fn render(out: &[u8], marks: &[(usize, String)], texts: &[(usize, usize, bool)],
             let wf = if shown {
                 // line break, then the repaint: row cleared, prompt, and nothing but line text / cursor
                 // movement up to the next event
-                brk && starts_with_at(out, end + 2, b"\r\x1b[K") && starts_with_at(out, end + 6, PROMPT.as_bytes())
+                brk && starts_with_at(out, end + 2, b"\r\x1b[K")
+                    && if in_sub(i) {
+                        starts_with_at(out, end + 6, b"(arg: ")
+                            || starts_with_at(out, end + 6, b"(reverse-i-search)")
+                            || starts_with_at(out, end + 6, b"(failed reverse-i-search)")
+                    } else {
+                        starts_with_at(out, end + 6, PROMPT.as_bytes())
+                    }
             } else {
                 !nl || brk
             };
@@ -561,14 +600,16 @@ fn scenario(rng: &mut Rng, n: usize, subloops: bool, big: bool) -> Vec<String> {
                 }
                 8 if subloops => {
                     // a message sent while the digit-argument sub-loop waits (D21)
-                    g.push("k:s");
+                    // … or the incremental-search sub-loop (left with C-g only: the line is restored)
+                    let search = g.rng.chance(1, 2);
+                    g.push(if search { "k:r" } else { "k:s" });
                     g.push("q");
                     if g.rng.chance(2, 3) {
                         g.print();
                         g.push("s");
                         g.push("q");
                     }
-                    if g.rng.chance(1, 2) {
+                    if !search && g.rng.chance(1, 2) {
                         g.plain();
                     } else {
                         g.push("k:x");
@@ -611,6 +652,8 @@ pub fn gen(ctx: &GenCtx, sink: &mut dyn FnMut(String)) {
         "pr 3 80 5 p:0:0:n r p:1:1:n p:2:2:l q s q k:e p:0:3:n p:1:4:l q r q s q k:e q",
         // D21: a message sent while the digit-argument sub-loop waits
         "pr 1 80 6 r q k:s q p:0:0:n s q k:p97 q s q k:e q",
+        // the same while an incremental search waits
+        "pr 1 80 7 r q k:p97 q k:r q p:0:0:n s q k:x q s q k:e q",
     ] {
         sink(s.to_string());
     }
